@@ -288,11 +288,15 @@ def _run_case(case):
                 self.antenna_positions.append((x0, i, -40))
 
     classes = [A1, B1, K1, D0]
-    pick = [classes[i] for i in rng.permutation(4)[:int(rng.integers(2, 5))]]
+    pick = [classes[i] for i in rng.permutation(4)[:int(rng.integers(1, 5))]]
     subs = [cls() for cls in pick]
-    c = subs[0]
-    for s_ in subs[1:]:
-        c = c + s_
+    if len(subs) == 1:
+        # a combination of exactly one (still unbuilt) sub-detector, made directly or by adding to an empty combination
+        c = CombinedDetector(subs[0]) if rng.random() < 0.5 else CombinedDetector() + subs[0]
+    else:
+        c = subs[0]
+        for s_ in subs[1:]:
+            c = c + s_
     kw = dict(antenna_class=Antenna)
     if rng.random() < 0.7:
         kw["alpha"] = int(rng.integers(1, 9))
@@ -303,6 +307,16 @@ def _run_case(case):
         kw.pop("alpha", None)
         kw.pop("beta", None)      # the default builder forwards every keyword to the antenna constructor: only give it what that accepts
         kw["noisy"] = False
+    def accepted_by_sole(method, given):
+        # with a single sub-detector (all signatures trivially identical) keywords are handed down as they are, and one that the
+        # sub-detector does not accept is an error of the caller, as it would be on the sub-detector itself: do not pass such
+        if len(subs) != 1:
+            return given
+        sig_ = inspect.signature(getattr(type(subs[0]), method))
+        if any(p_.kind == p_.VAR_KEYWORD for p_ in sig_.parameters.values()):
+            return given
+        return {k_: v_ for k_, v_ in given.items() if k_ in sig_.parameters}
+    kw = accepted_by_sole("build_antennas", kw)
     c.build_antennas(**kw)
     defaults = {"alpha": 0, "beta": 1}
     for sdet in subs:
@@ -325,6 +339,7 @@ def _run_case(case):
         tk["alpha"] = int(rng.integers(1, 9))
     if rng.random() < 0.7:
         tk["beta"] = int(rng.integers(1, 9))
+    tk = accepted_by_sole("triggered", tk)
     hit_any = bool(rng.random() < 0.4)
     if hit_any:
         hit(list(c)[-1])
